@@ -2,7 +2,10 @@
 the emitted module, classify what Coq reports.  See c03.py / c12.py for what is claimed."""
 from common import *
 import sv_common as sv, svparse, sv_gen, sched_common as sc
-import collections
+import collections, signal
+
+class _Watchdog(Exception): pass
+def _alarm(signum, frame): raise _Watchdog('design did not finish simulating / translating within the watchdog (e.g. a while-loop in an update block)')
 
 class Res:
   """outcome for one (design, backend)"""
@@ -35,6 +38,16 @@ def directed_designs(ctx):
 def prepare(ctx, d, backend, ncycles, seed, sim_cache):
   """simulate (once per design, shared by the backends), translate, parse, print the Coq case"""
   r = Res(d, backend)
+  signal.signal(signal.SIGALRM, _alarm); signal.alarm(25)
+  try:
+    return _prepare(ctx, d, backend, ncycles, seed, sim_cache, r)
+  except _Watchdog as e:
+    r.status, r.detail = 'rejected', 'watchdog:timeout'
+    return r
+  finally:
+    signal.alarm(0)
+
+def _prepare(ctx, d, backend, ncycles, seed, sim_cache, r):
   try:
     if d.name not in sim_cache:
       sim_cache[d.name] = None
